@@ -75,6 +75,8 @@ def targeted_discs(rng):
     # exact-fill lengths k*8192-140 bytes = words 4026, 8122, 12218 (k = 1..3), and +-1 word
     for n in (4025, 4026, 4027, 8122, 12218):
         out.append(("exact-fill", G.Disc([G.Partition([G.Volume("V", [G.SampleFile("S", W(rng, n))])], sectors=16)])))
+    # long files: 4 and 5 sectors (chains with several undecoded sectors in a row before a link down)
+    out.append(("long", G.Disc([G.Partition([G.Volume("V", [G.SampleFile("L4", W(rng, 14000)), G.SampleFile("L5", W(rng, 18500))], dir_sectors=3)], sectors=24)])))
     # empty sample, empty window, interior window
     out.append(("empty", G.Disc([G.Partition([G.Volume("V", [G.SampleFile("E", []), G.SampleFile("W", W(rng, 100), 40, 40), G.SampleFile("I", W(rng, 5000), 1000, 4096)])], sectors=16)])))
     # three partitions, empty volumes, rate 0
@@ -96,7 +98,7 @@ def run(ctx, rep: Report, deep: bool = False):
     cases = []
     for tag, disc in targeted_discs(rng):
         # every chain shape for the targeted ones
-        for shape in (("contiguous",), ("reversed",), ("head-not-lowest",), ("random",)) if (deep or not ctx.quick) else (("head-not-lowest",), ("reversed",)):
+        for shape in (("contiguous",), ("reversed",), ("head-not-lowest",), ("random",), ("rotl",), ("hi-lo",)) if (deep or not ctx.quick) else (("rotl",), ("hi-lo",), ("reversed",)):
             img_rng = rng
             old = G.serialize.__defaults__
             try:
